@@ -400,6 +400,11 @@ def rule_field_map(ctx: Ctx, rule: str) -> Optional[Tuple[str, Dict[int, str]]]:
                 if isinstance(x, Call) and isinstance(x.func, Ext) and x.func.name.split('.')[-1] == 'reduce':
                     for a in x.args:
                         v = a.body if type(a).__name__ == 'Lam' else a
+                        if type(v).__name__ == 'FuncRef':
+                            # a named step function: what it returns
+                            sfi = ctx.ev.callee(v)
+                            so = ctx.ev.run(sfi) if sfi is not None else []
+                            v = so[0].value if len(so) == 1 and so[0].kind == 'return' else v
                         if isinstance(v, New):
                             cls = cls or v.cls
                             for i, (fname, fv) in enumerate(f2 for f2 in v.fields if f2[0] not in ('metadata', 'data_type')):
